@@ -978,9 +978,14 @@ def array_from_scalar_or_array_gradmaker(ans, array_args, array_kwargs, scarray)
     ndmin = array_kwargs.get("ndmin", 0)
     scarray_ndim = anp.ndim(scarray)
     if ndmin > scarray_ndim:
-        return lambda g: anp.squeeze(g, axis=tuple(range(ndmin - scarray_ndim)))
+        unsqueeze = lambda g: anp.squeeze(g, axis=tuple(range(ndmin - scarray_ndim)))
     else:
-        return lambda g: g
+        unsqueeze = lambda g: g
+    arg_dtype = anp.result_type(scarray)
+    if anp.result_type(ans) == arg_dtype:
+        return unsqueeze
+    # np.array(x, dtype=...) changed the kind or precision: the cotangent goes back to the argument's own
+    return lambda g: anp._astype(match_complex(scarray, unsqueeze(g)), arg_dtype)
 
 
 defvjp(anp._array_from_scalar_or_array, array_from_scalar_or_array_gradmaker, argnums=(2, 3))
